@@ -14,17 +14,17 @@ KANI_HARNESSES = {
               "props": ["C02", "C07"], "bounded": None,
               "fn": "Framework::below_limit_padding", "file": "crates/maybenot/src/framework.rs"},
     "k_blk": {"crate": "maybenot", "default_tag": "C01.safety_leaf", "tier": "quick",
-              "variants": ["framework::verif_proofs::k_blk", "framework::verif_proofs::k_blk_cvc5"],
+              "variants": ["framework::verif_proofs::k_blk", "framework::verif_proofs::k_blk_kissat"],
               "props": ["C03", "C07"], "bounded": None,
               "fn": "Framework::below_limit_blocking", "file": "crates/maybenot/src/framework.rs"},
 }
 
 PROPS = {
-    "C01": {"verus": ["vfw"], "kani": [], "untagged": True,
+    "C01": {"verus": ["vfw", "vleaf"], "kani": [], "untagged": True,
             "title": "Framework is total"},
     "C02": {"verus": ["vfw"], "kani": ["k_pad"], "title": "Padding budgets"},
     "C03": {"verus": ["vfw"], "kani": ["k_blk"], "title": "Blocking budgets"},
     "C04": {"verus": ["vfw"], "kani": [], "title": "Output contract"},
-    "C07": {"verus": ["vfw"], "kani": ["k_pad", "k_blk"], "title": "Per-state limits"},
+    "C07": {"verus": ["vfw", "vleaf"], "kani": ["k_pad", "k_blk"], "title": "Per-state limits"},
     "C10": {"verus": ["vfw"], "kani": [], "title": "Non-interference"},
 }
